@@ -140,6 +140,8 @@ def run(model: RepoModel, rep, tier: str):
                        "what is done per entry is commutative", min_instances=5)
     rep.rule("C14.R2", "no iteration over a hash-ordered collection of strings/objects allocates identifiers, appends to a stored sequence "
                        "or picks a first match, unless sorted", min_instances=10)
+    rep.rule("C14.R4", "a forced run starts from an empty workspace: the wipe visits every entry, so results cannot depend on what an "
+                       "earlier run left behind", min_instances=1)
     rep.rule("C14.R3", "no clock, pid, random or object identity value reaches an identifier or a stored result", min_instances=2)
 
     # ------------------------------------------------------------------ R1
@@ -255,6 +257,84 @@ def run(model: RepoModel, rep, tier: str):
                 rep.unknown("C14.R2", key, f.module.rel, n.lineno, f"element kind not inferred ({ev}); effects {sensitive}")
     rep.analysed["set iterations examined"] = n_sites
 
+    # set -> sequence conversions (list(S), tuple(S), str(S), sep.join(S)) freeze the hash order into a value
+    OBJ_HINTS = ("node", "name", "path", "symbol", "key", "type", "str", "label", "text")
+    n_conv = 0
+    for f in model.all_funcs():
+        local_sets = {n.targets[0].id for n in walk_no_nested(f.node) if isinstance(n, ast.Assign) and isinstance(n.targets[0], ast.Name)
+                      and _is_set_expr(n.value)}
+        for n in walk_no_nested(f.node):
+            if not isinstance(n, ast.Call):
+                continue
+            cn = call_name(n) or ""
+            arg = None
+            if cn in ("list", "tuple", "str") and n.args:
+                arg = n.args[0]
+            elif isinstance(n.func, ast.Attribute) and n.func.attr == "join" and n.args:
+                arg = n.args[0]
+            if arg is None:
+                continue
+            is_set = _is_set_expr(arg) or (isinstance(arg, ast.Name) and arg.id in local_sets and
+                                           # the name still holds the set here: its last assignment before the call is the set expression
+                                           _is_set_expr(max([a for a in walk_no_nested(f.node) if isinstance(a, ast.Assign) and isinstance(a.targets[0], ast.Name)
+                                                             and a.targets[0].id == arg.id and a.lineno < n.lineno] or [None], key=lambda a: a.lineno if a else -1).value
+                                                        if any(isinstance(a, ast.Assign) and isinstance(a.targets[0], ast.Name) and a.targets[0].id == arg.id and a.lineno < n.lineno
+                                                               for a in walk_no_nested(f.node)) else None))
+            if not is_set:
+                continue
+            n_conv += 1
+            key = f"{f.ref}::{cn or 'join'}({norm(arg)[:50]})"
+            if isinstance(arg, ast.Name):
+                kind, ev = _elem_kind(f, arg.id, False, model)
+            else:
+                inner = norm(arg)
+                kind = "int" if any(h in inner for h in INT_NAME_HINTS) and not any(h in inner.lower() for h in ("name", "node")) else (
+                    "object" if any(h in inner.lower() for h in OBJ_HINTS) else "unknown")
+                ev = inner[:40]
+            if kind == "unknown" and isinstance(arg, ast.Name):
+                # element sources such as `element.type` / `x.name`
+                txt = " ".join(norm(c.args[0]) for c in walk_no_nested(f.node) if isinstance(c, ast.Call) and isinstance(c.func, ast.Attribute)
+                               and c.func.attr == "add" and isinstance(c.func.value, ast.Name) and c.func.value.id == arg.id and c.args)
+                if any(h in txt.lower() for h in OBJ_HINTS) and not any(txt.endswith(h) for h in INT_NAME_HINTS):
+                    kind, ev = "str", txt[:40]
+            if kind == "int":
+                rep.holds("C14.R2", key, f.module.rel, n.lineno, f"set of ints ({ev}) turned into a sequence: order independent of the hash seed")
+            elif kind in ("str", "object"):
+                rep.violation("C14.R2", key, f.module.rel, n.lineno,
+                              f"{f.ref} turns a set of {kind} elements ({ev}) into a sequence with `{norm(n)[:60]}`: the order of the result "
+                              f"follows PYTHONHASHSEED; use sorted(...)")
+            else:
+                rep.unknown("C14.R2", key, f.module.rel, n.lineno, f"element kind of `{norm(arg)[:40]}` not inferred")
+    rep.analysed["set -> sequence conversions examined"] = n_conv
+
+    # ------------------------------------------------------------------ R4
+    prep = model.module("preparation.py")
+    wb = prep.classes.get("WorkspaceBuilder")
+    md = wb.methods.get("manage_directory") if wb else None
+    if md is None:
+        raise AnalysisError("WorkspaceBuilder.manage_directory vanished")
+    from ..cfg import cfg_of
+    mcfg = cfg_of(md.node)
+    wipe = [h for h in mcfg.g.nodes if mcfg.kind[h] == "iter" and isinstance(mcfg.stmt[h].iter, ast.Call) and call_name(mcfg.stmt[h].iter) == "os.listdir"]
+    key = "preparation.py::WorkspaceBuilder.manage_directory::the forced wipe visits every entry"
+    if not wipe:
+        rep.violation("C14.R4", key, "preparation.py", md.node.lineno, "--force no longer empties the workspace: results depend on what earlier runs left there")
+    else:
+        h = wipe[0]
+        body = mcfg.loop_body_nodes[h]
+        type_tests = {n for n in body if mcfg.kind[n] == "test" and any(isinstance(x, ast.Call) and call_name(x) in ("os.path.isfile", "os.path.isdir", "os.path.islink")
+                                                                     for x in ast.walk(mcfg.stmt[n].test))}
+        deletes = {n for n in body for c in mcfg.calls_at(n) if call_name(c) in ("os.unlink", "os.remove", "shutil.rmtree")}
+        p = mcfg.back_paths_all_pass(h, type_tests | deletes)
+        if p is None and deletes:
+            rep.holds("C14.R4", key, "preparation.py", mcfg.stmt[h].lineno, "every path through the wipe loop reaches the file/directory test that leads to the delete")
+        else:
+            skip = [mcfg.stmt[n] for n in (p or []) if mcfg.kind.get(n) == "test"]
+            rep.violation("C14.R4", key, "preparation.py", skip[0].lineno if skip else mcfg.stmt[h].lineno,
+                          "the forced wipe of the workspace skips some entries" + (f" (`{norm(skip[0].test)}`)" if skip else "")
+                          + ": files left by an earlier run (e.g. mock sources of another language) become extra units and shift every id, so the "
+                            "output depends on what was analysed before")
+
     # ------------------------------------------------------------------ R3
     for f in model.all_funcs():
         if f.module.rel.startswith("lang/") and f.module.rel != "lang/lang_analysis.py":
@@ -326,6 +406,11 @@ def _t(old, new):
 
 
 MUTANTS = [
+    ("import-nodes-via-set", "basics/import_hierarchy.py", _t("                return list(import_nodes)", "                return list(set(import_nodes))"), "list(set(import_nodes))"),
+    ("ts-array-types-unsorted", "lang/typescript_parser.py", _t("        data_type = sorted(data_type)", "        data_type = list(data_type)"), "typescript_parser.py"),
+    ("wipe-skips-externs", "preparation.py", _t("            for filename in os.listdir(path):\n                file_path = os.path.join(path, filename)\n                try:\n                    if os.path.isfile(file_path) or os.path.islink(file_path):\n                        os.unlink(file_path)\n                    elif os.path.isdir(file_path):\n                        shutil.rmtree(file_path)\n                except Exception as e:\n                    util.error_and_quit(f\"Failed to delete {file_path}. Reason: {e}\")\n\n    def obtain",
+                                                "            for filename in os.listdir(path):\n                if filename == config.EXTERNS_DIR:\n                    continue\n                file_path = os.path.join(path, filename)\n                try:\n                    if os.path.isfile(file_path) or os.path.islink(file_path):\n                        os.unlink(file_path)\n                    elif os.path.isdir(file_path):\n                        shutil.rmtree(file_path)\n                except Exception as e:\n                    util.error_and_quit(f\"Failed to delete {file_path}. Reason: {e}\")\n\n    def obtain"),
+     "forced wipe"),
     ("scandir-unsorted", "preparation.py", _t("for entry in sorted(os.scandir(module_path), key=lambda e: e.name):", "for entry in os.scandir(module_path):"),
      "scan_modules_by_scanning_workspace_dir"),
     ("walk-files-unsorted", "preparation.py", _t("for file in sorted(files):", "for file in files:"), "copytree_with_extension"),
